@@ -323,7 +323,7 @@ Definition listener_attrs_stale (g : option (list listener)) (r : resource) : Z 
       else if negb (String.eqb (vc_https4 x) (vc_https4 e)) || negb (String.eqb (vc_https6 x) (vc_https6 e)) then 10
       else 0
   | RTS x =>
-      if is_listener_ts (tc_ts x) then
+      if negb (is_passthrough (tc_ts x)) then
         let '(p, a4, a6) := match ts_listener g (tc_ts x) with
                             | Some l => (l_port l, l_ipv4 l, l_ipv6 l)
                             | None => (0, ""%string, ""%string)
